@@ -132,8 +132,12 @@ def helpers(p):
                           p.if_([p.bin("==", p.id("nm"), p.id("name"))], [p.block([p.local(["r"], [p.call(_dbg(p, "setupvalue"), [p.id("f"), p.id("i"), p.id("v")])]), p.ret([p.id("r")])])]),
                           p.assign([p.id("i")], [p.bin("+", p.id("i"), p.num(1))])])
     setup_fn = p.func(["f", "name", "v"], p.block([p.local(["i"], [p.num(1)]), p.while_(p.bin("<", p.id("i"), p.num(60)), setup_body), p.ret([p.nil()])]))
+    # probe(level): stores the locals of `level` in the global `probed`; used as a call STATEMENT so that
+    # the call can be the very last instruction of a block (scope end boundary)
+    probe_fn = p.func(["level"], p.block([p.assign([p.id("probed")], [p.table([("p", p.call(p.id("locals"), [p.bin("+", p.id("level"), p.num(1))]))])]),
+                                          p.assign([p.id("nprobed")], [p.call(p.id("select"), [p.str("#"), p.call(p.id("locals"), [p.bin("+", p.id("level"), p.num(1))])])])]))
     return [p.localfunction("locals", locals_fn), p.localfunction("setl", setl_fn),
-            p.localfunction("ups", ups_fn), p.localfunction("setup", setup_fn)]
+            p.localfunction("ups", ups_fn), p.localfunction("setup", setup_fn), p.localfunction("probe", probe_fn)]
 
 
 def scope_case(rng):
@@ -161,7 +165,9 @@ def scope_case(rng):
                 counter[0] += 1
                 out.append(p.emit([p.str("set"), p.call(p.id("setl"), [p.num(1), p.str(nm), p.num(1000 + counter[0])]), p.id(nm)]))
             elif c < 0.75 and depth > 0:
+                out.append(p.assign([p.id("probed"), p.id("nprobed")], [p.table([]), p.num(0)]))
                 out.append(p.do(p.block(gen_block(depth - 1, vis))))
+                out.append(p.emit([p.str("P"), p.id("nprobed"), p.call(p.id("unpack"), [p.id("probed"), p.num(1), p.id("nprobed")])]))
             elif c < 0.82 and depth > 0:
                 out.append(p.fornum("i", p.num(1), p.num(2), 0, p.block(gen_block(depth - 1, vis + ["i"]))))
             elif c < 0.88 and depth > 0:
@@ -182,7 +188,12 @@ def scope_case(rng):
                 out.append(p.emit([p.str("setup"), p.call(p.id("setup"), [p.id(fname), p.str(used[0]), p.num(5000 + counter[0])]), p.id(used[0]), p.call(p.id(fname), [p.num(1)])]))
             else:
                 out.append(p.emit([p.str("v")] + [p.id(v) for v in vis[-2:]]))
+        if rng.random() < 0.5:
+            out.append(p.callstat(p.call(p.id("probe"), [p.num(1)])))      # last instruction of this block
         return out
+
+    def after_probe():
+        return p.emit([p.str("P"), p.id("nprobed"), p.call(p.id("unpack"), [p.id("probed"), p.num(1), p.id("nprobed")])])
     body = gen_block(2, [])
     main_fn = p.func(["pa", "pb"], p.block(body), va=rng.random() < 0.3, ud=False)
     ss.append(p.localfunction("main", main_fn))
